@@ -22,19 +22,19 @@ import (
 // re-seeds before every operation that ends up here.
 
 type ForeignParams struct {
-	KeyAlg  string `json:"keyAlg,omitempty"`  // gopki key algorithm name; default P-256
-	Str     string `json:"str,omitempty"`     // printable | utf8 | ia5 | teletex : DN string type
-	Parts   string `json:"parts,omitempty"`   // cert+key | key | csr | cert+csr | cert
-	P8      string `json:"p8,omitempty"`      // EC: outer | inner | both ; RSA: null | noparams
-	Pub     bool   `json:"pub,omitempty"`     // EC: include the optional public key
-	PubForm string `json:"pubForm,omitempty"` // EC: point form of that optional public key: "" uncompressed | compressed | hybrid (SEC 1 2.3.3)
-	Pad     string `json:"pad,omitempty"`     // EC scalar: fixed | stripped | extra
-	Sig     string `json:"sig,omitempty"`     // signature algorithm name; default SHA-256 of the signer's family
-	MultiRDN bool  `json:"multiRDN,omitempty"` // the certificate's subject starts with a multi-valued RDN
-	AltDN   bool   `json:"altDN,omitempty"`   // the certificate's subject text differs from the config's subject
-	Order   string `json:"order,omitempty"`   // "" certificate first | key-first (as some tools write it)
-	Point   string `json:"point,omitempty"`   // EC public key in the certificate: "" uncompressed | compressed (NIST curves only)
-	Odd     string `json:"odd,omitempty"`     // structurally valid but unusual certificate/request (see oddKinds)
+	KeyAlg   string `json:"keyAlg,omitempty"`   // gopki key algorithm name; default P-256
+	Str      string `json:"str,omitempty"`      // printable | utf8 | ia5 | teletex : DN string type
+	Parts    string `json:"parts,omitempty"`    // cert+key | key | csr | cert+csr | cert
+	P8       string `json:"p8,omitempty"`       // EC: outer | inner | both ; RSA: null | noparams
+	Pub      bool   `json:"pub,omitempty"`      // EC: include the optional public key
+	PubForm  string `json:"pubForm,omitempty"`  // EC: point form of that optional public key: "" uncompressed | compressed | hybrid (SEC 1 2.3.3)
+	Pad      string `json:"pad,omitempty"`      // EC scalar: fixed | stripped | extra
+	Sig      string `json:"sig,omitempty"`      // signature algorithm name; default SHA-256 of the signer's family
+	MultiRDN bool   `json:"multiRDN,omitempty"` // the certificate's subject starts with a multi-valued RDN
+	AltDN    bool   `json:"altDN,omitempty"`    // the certificate's subject text differs from the config's subject
+	Order    string `json:"order,omitempty"`    // "" certificate first | key-first (as some tools write it)
+	Point    string `json:"point,omitempty"`    // EC public key in the certificate: "" uncompressed | compressed (NIST curves only)
+	Odd      string `json:"odd,omitempty"`      // structurally valid but unusual certificate/request (see oddKinds)
 }
 
 func (f ForeignParams) JSON() string { b, _ := json.Marshal(f); return string(b) }
